@@ -1,5 +1,14 @@
 package main
 
-import "verifharness/c09"
+import (
+	"verifharness/c09"
+	"verifharness/c19"
+)
 
-func init() { runners["C09"] = c09.Run; facts["C09"] = c09.Facts }
+func init() {
+	runners["C09"] = c09.Run
+	facts["C09"] = c09.Facts
+	// the range analysis that derives allow entries for arithmetic-guarded index / slice
+	// operations lives in package c19 (which imports c09): wire it here
+	c09.Derive = c19.DeriveAllow
+}
